@@ -5,6 +5,7 @@ use simlib::{
     grad::{C02Engine, C03Engine, C15Engine},
     builder::C18Engine,
     hist::C01Engine,
+    io::C06Engine,
     runner::{install_panic_hook, replay, run_range, Engine, Tier},
 };
 
@@ -51,6 +52,7 @@ fn main() {
     let code = match args.get(1).map(String::as_str) {
         Some("c01") => drive::<C01Engine>(&args),
         Some("c18") => drive::<C18Engine>(&args),
+        Some("c06") => drive::<C06Engine>(&args),
         Some("c02") => drive::<C02Engine>(&args),
         Some("c03") => drive::<C03Engine>(&args),
         Some("c15") => drive::<C15Engine>(&args),
